@@ -66,7 +66,22 @@ def corpus():
                     {"n": "r2", "of": r, "conns": [["p", one({"s": 0, "e": 1, "st": None})], ["n", {"k": "sig", "n": "gnd"}]]},
                     {"n": "r3", "of": r, "conns": [["p", one({"s": None, "e": None, "st": None})], ["n", {"k": "sig", "n": "gnd"}]]},
                     {"n": "w", "of": {"k": "module", "name": "Inner"}, "conns": [["a", {"k": "sig", "n": "bus"}]]}]}]}
-    return [{"design": d6, "style": "proc"}, {"design": d6, "style": "gen"},
+    # concatenations of slices of ONE signal which together are as wide as the signal: a rotation, a reversal, a swap of halves
+    # and the identity, side by side on one bus (a resolver that folds such a concatenation into the signal loses the permutation)
+    bs = lambda i: {"k": "slice", "p": {"k": "sig", "n": "bus"}, "i": i}
+    cat = lambda *ps: {"k": "concat", "ps": list(ps)}
+    in4 = {"name": "In4", "sigs": [{"n": "a", "w": 4, "port": True, "dir": "none"}], "bundles": [],
+           "insts": [{"n": "e", "of": {"k": "leaf", "kind": ".E4", "ports": [{"n": "q", "w": 4}], "params": [], "py": {"k": "ext", "name": "E4"}},
+                      "conns": [["q", {"k": "sig", "n": "a"}]]}]}
+    perms = [("same", cat(bs({"s": 0, "e": 2, "st": None}), bs({"s": 2, "e": 4, "st": None}))),
+             ("rot", cat(bs({"s": 1, "e": 4, "st": None}), bs({"i": 0}))),
+             ("rev", cat(bs({"i": 3}), bs({"i": 2}), bs({"i": 1}), bs({"i": 0}))),
+             ("halves", cat(bs({"s": 2, "e": 4, "st": None}), bs({"s": 0, "e": 2, "st": None}))),
+             ("swap01", cat(bs({"i": 1}), bs({"i": 0}), bs({"s": 2, "e": None, "st": None}))),
+             ("whole", {"k": "sig", "n": "bus"})]
+    d7 = {"bundles": [], "top": "Top", "modules": [in4, {"name": "Top", "sigs": [{"n": "bus", "w": 4, "port": True, "dir": "none"}], "bundles": [],
+          "insts": [{"n": nm, "of": {"k": "module", "name": "In4"}, "conns": [["a", c]]} for nm, c in perms]}]}
+    return [{"design": d7, "style": "proc"}, {"design": d7, "style": "class"}, {"design": d6, "style": "proc"}, {"design": d6, "style": "gen"},
             {"design": d1, "style": "proc"}, {"design": d2, "style": "proc"}, {"design": d3, "style": "proc"}, {"design": d3, "style": "class"},
             {"design": d4, "style": "proc"}, {"design": d4, "style": "gen"}, {"design": d5, "style": "proc"}, {"design": d5, "style": "class"}]
 
